@@ -66,8 +66,13 @@ func c06Build(n int, place []int, variant int) *specs.Spec {
 			e := edits(pl)
 			e.DeviceNodes = append(e.DeviceNodes, &specs.DeviceNode{Path: "/dev/x0", Type: "c", Major: 1}, &specs.DeviceNode{Path: "/dev/x", HostPath: []string{"/dev/null", "/dev/x", "x", " "}[pick(f, 4)]})
 		case "digitName":
-			s.Devices[pl-1].Name = []string{"%dd", "%d", "0%d", "%d.x-y"}[pick(f, 4)]
-			s.Devices[pl-1].Name = fmt.Sprintf(s.Devices[pl-1].Name, pl-1)
+			// every leading digit 0..9, alone or followed by more
+			s.Devices[pl-1].Name = fmt.Sprintf([]string{"%dd", "%d", "%d0", "%d.x-y"}[pick(f, 4)], (variant/4+pl)%10)
+			for i := range s.Devices {
+				if i != pl-1 && s.Devices[i].Name == s.Devices[pl-1].Name {
+					s.Devices[pl-1].Name += "x"
+				}
+			}
 		case "annotations":
 			m := []map[string]string{{"k": "v"}, {"k": ""}, {"a.b/c": "v", "d": "w"}}[pick(f, 3)]
 			if pl == 0 {
@@ -199,6 +204,40 @@ func checkC06(c *Ctx) {
 				if got != want {
 					cs.Violation("minimum", map[string]string{"want": want, "got": got}, fmt.Sprintf("MinimumRequiredVersion = %s, features used require %s (n=%d placement=%v)", got, want, n, place), wit())
 					return
+				}
+				// every realisation of every feature that is in use (see c06Build: feature f
+				// takes its variant from variant/(f+1))
+				for f, pl := range place {
+					if pl < 0 {
+						continue
+					}
+					for j := 0; j < 5; j++ {
+						vs := c06Build(n, place, j*(f+1))
+						if g, _ := specs.MinimumRequiredVersion(vs); g != want {
+							cs.Violation("minimum", map[string]string{"want": want, "got": g}, fmt.Sprintf("MinimumRequiredVersion = %s, features used require %s (n=%d placement=%v, realisation %d of feature %s)", g, want, n, place, j, c06Features[f].name), map[string]any{"n_devices": n, "placement": append([]int{}, place...), "spec": vs})
+							return
+						}
+					}
+				}
+				// a device name starting with any of the ten digits is the same feature
+				for f, pl := range place {
+					if c06Features[f].name != "digitName" || pl <= 0 {
+						continue
+					}
+					for dg := 0; dg < 10; dg++ {
+						ds := *s
+						ds.Devices = append([]specs.Device{}, s.Devices...)
+						ds.Devices[pl-1].Name = fmt.Sprintf("%dq%d", dg, count%3)
+						if g, _ := specs.MinimumRequiredVersion(&ds); g != want {
+							cs.Violation("minimum", map[string]string{"want": want, "got": g}, fmt.Sprintf("MinimumRequiredVersion = %s with device %d named %q, features used require %s (n=%d placement=%v)", g, pl-1, ds.Devices[pl-1].Name, want, n, place), wit())
+							return
+						}
+						ds.Version = want
+						if err := specs.ValidateVersion(&ds); err != nil {
+							cs.Violation("validate", nil, fmt.Sprintf("ValidateVersion(declared %s = required) with device named %q: %v", want, ds.Devices[pl-1].Name, err), wit())
+							return
+						}
+					}
 				}
 				{
 					fresh := cloneSpec(s)
